@@ -826,7 +826,19 @@ func genFrameARP(o *frOut) {
 	o.z("arp_prot_size", frZ(p, frTake(p, "ARP", m, "ProtAddressSize")))
 	o.z("arp_operation", frZ(p, frTake(p, "ARP", m, "Operation")))
 	frExpectField(p, frTake(p, "ARP", m, "SourceHwAddress"), f.req, "SrcMAC")
-	frExpectField(p, frTake(p, "ARP", m, "SourceProtAddress"), f.req, "SrcIP")
+	// SourceProtAddress: r.SrcIP, or r.SrcIP.To4()
+	spa := frTake(p, "ARP", m, "SourceProtAddress")
+	if c, ok := spa.(*ast.CallExpr); ok && len(c.Args) == 0 {
+		s, ok := c.Fun.(*ast.SelectorExpr)
+		if !ok || s.Sel.Name != "To4" {
+			die("ARP.SourceProtAddress is neither r.SrcIP nor r.SrcIP.To4()")
+		}
+		frExpectField(p, s.X, f.req, "SrcIP")
+		o.def("arp_spa_to4", "bool", "true")
+	} else {
+		frExpectField(p, spa, f.req, "SrcIP")
+		o.def("arp_spa_to4", "bool", "false")
+	}
 	o.def("arp_target_hw", "list Z", frZList(frByteList(p, frTake(p, "ARP", m, "DstHwAddress"))))
 	// DstProtAddress: r.DstIP.To4()
 	c, ok := frTake(p, "ARP", m, "DstProtAddress").(*ast.CallExpr)
